@@ -2,10 +2,12 @@ module verifharness
 
 go 1.26.8
 
-require git.sr.ht/~adrian-blx/psa-dhcp v0.0.0
+require (
+	git.sr.ht/~adrian-blx/psa-dhcp v0.0.0
+	github.com/golang/protobuf v1.5.2
+)
 
 require (
-	github.com/golang/protobuf v1.5.2 // indirect
 	golang.org/x/time v0.0.0-20211116232009-f0f3c7e86c11 // indirect
 	google.golang.org/protobuf v1.26.0 // indirect
 )
